@@ -915,8 +915,18 @@ def get_code(node: ast.AST | Range, source: str) -> str:
     return source[start_charno:end_charno]
 
 
+def _contains_set(value: object) -> bool:
+    if isinstance(value, (set, frozenset)):
+        return True
+    if isinstance(value, (list, tuple)):
+        return any(map(_contains_set, value))
+    if isinstance(value, dict):
+        return any(map(_contains_set, value.values()))
+    return False
+
+
 def literal_value(node: ast.AST) -> bool:
-    if has_side_effect(node, safe_callable_whitelist=constants.BUILTIN_FUNCTIONS):
+    if has_side_effect(node, safe_callable_whitelist=constants.PURE_BUILTIN_FUNCTIONS):
         raise ValueError("Cannot find a deterministic value for a node with a side effect")
 
     if match_template(
@@ -963,11 +973,18 @@ def literal_value(node: ast.AST) -> bool:
     if match_template(node, ast.Call(func=ast.Attribute(value=ast.Constant), keywords=[])):
         node_value = literal_value(node.func.value)
         args = [literal_value(arg) for arg in node.args]
+        if _contains_set(args):
+            raise ValueError("Cannot find a deterministic value for something that iterates a set")
         return getattr(node_value, node.func.attr)(*args)
 
     if isinstance(node, ast.Call):
-        if isinstance(node.func, ast.Name) and node.func.id in constants.BUILTIN_FUNCTIONS:
+        if isinstance(node.func, ast.Name) and node.func.id in constants.PURE_BUILTIN_FUNCTIONS:
             args = [literal_value(arg) for arg in node.args]
+            if (
+                node.func.id not in constants.SET_ORDER_INSENSITIVE_BUILTIN_FUNCTIONS
+                and _contains_set(args)
+            ):
+                raise ValueError("Cannot find a deterministic value for something that iterates a set")
             return getattr(builtins, node.func.id)(*args)
 
     return ast.literal_eval(node)
